@@ -62,7 +62,7 @@ OPTION_SETS = [
     ['-ff', 'martini3001', '-go', '-go-eps', '12', '-go-res-dist', '4', '-water-bias', '-water-bias-eps', 'H:3.6', 'C:2.1', '-ss', 'H'],
 ]
 PRESENTATIONS = [('permute', {'pstyle': 'random'}), ('permute', {'pstyle': 'reverse'}), ('rename-h', {'hstyle': 'pdb-rotation'}),
-                 ('rename-h', {'hstyle': 'arbitrary'}), ('rigid', {}), ('hashseed', {})]
+                 ('rename-h', {'hstyle': 'arbitrary'}), ('rigid', {}), ('hashseed', {}), ('translate-file', {})]
 
 
 def run_cli(pdb, options, presentation, extra, pseed, hashseed, workdir):
@@ -280,7 +280,7 @@ def cases(tier, seed):
     else:
         groups = 48
         inputs = INPUTS_QUICK + INPUTS_MORE
-        npres = 6
+        npres = 7
     for g in range(groups):
         pdb = inputs[g % len(inputs)] if tier == 'quick' else rnd.choice(inputs)
         options = rnd.choice(OPTION_SETS)
@@ -294,7 +294,8 @@ def cases(tier, seed):
         if tier == 'quick':
             # every quick group presents one atom order, one of (hydrogen names | rigid motion) and one hash seed
             pres = [('permute', {'pstyle': 'reverse' if g % 2 else 'random'}),
-                    [('rename-h', {'hstyle': 'pdb-rotation'}), ('rigid', {}), ('rename-h', {'hstyle': 'arbitrary'}), ('rigid', {})][(g + seed) % 4],
+                    [('rename-h', {'hstyle': 'pdb-rotation'}), ('rigid', {}), ('rename-h', {'hstyle': 'arbitrary'}),
+                     ('translate-file', {})][(g + seed) % 4],
                     ('hashseed', {})]
         if '-go' in options:
             # the Go contact map places a fixed-frame point set on every atom: it is translation- but not rotation-invariant by
@@ -368,7 +369,21 @@ def run_case(params):
             b.total += 1
             d = os.path.join(base, kind + '-' + '-'.join(str(v) for v in extra.values()))
             hs = params['hashseed'] if kind == 'hashseed' else 0
-            r2 = run_cli(pdb, params['options'], kind, extra, params['pseed'], hs, d)
+            if kind == 'translate-file':
+                # the input FILE is translated (by whole thousandths of an Angstrom, so no coordinate is rounded): x moves below
+                # -100 A and y above 1000 A, where the coordinates fill all eight columns of their fields
+                shift = (-150.0, 1000.0, 12.0)
+                os.makedirs(d, exist_ok=True)
+                moved_pdb = os.path.join(d, 'moved.pdb')
+                with open(pdb) as f, open(moved_pdb, 'w') as g:
+                    for l in f:
+                        if l.startswith(('ATOM', 'HETATM')):
+                            xyz = [float(l[30 + 8 * i:38 + 8 * i]) + shift[i] for i in range(3)]
+                            l = l[:30] + ''.join('%8.3f' % v for v in xyz) + l[54:]
+                        g.write(l)
+                r2 = run_cli(moved_pdb, params['options'], 'reference', {}, params['pseed'], hs, d)
+            else:
+                r2 = run_cli(pdb, params['options'], kind, extra, params['pseed'], hs, d)
             desc = {'input': params['pdb'], 'options': params['options'], 'presentation': [kind, extra], 'pseed': params['pseed'],
                     'hashseed': hs}
             if r2.returncode != 0:
@@ -378,6 +393,8 @@ def run_case(params):
                 continue
             other = load_outputs(d)
             record = (other['presentation']['records'] or [{}])[0]
+            if kind == 'translate-file':
+                record = {'moved': True, 'R': [[1, 0, 0], [0, 1, 0], [0, 0, 1]], 't': [x / 10.0 for x in shift]}
             b.hits += 1
             p, adm = compare(ref, other, exact=(kind == 'hashseed'), upper=upper)
             if not p:
